@@ -31,7 +31,9 @@ const char *K_SETCF = "C16-setcoefficients-fourier";     // -setcoefficients on 
 const char *K_REFF = "C16-refine-fourier";               // -refine on a Fourier grid (documented: anisotropic) calls surplus refinement and dies
 const char *K_REFTYPE = "C16-refinesurp-reftype";        // -refinesurp requires -reftype also for Sequence/Global grids (help: local grids only)
 const char *K_UPDOUT = "C16-makeupdate-no-output";       // -makeupdate ignores -outputfile/-print although help promises the new points
-const std::vector<const char *> ALL_K = {K_OUT0, K_MQLOCAL, K_SCALE, K_FLOAT, K_GNNAME, K_SCALIAS, K_SETCF, K_REFF, K_REFTYPE, K_UPDOUT};
+const char *K_UCWRITE = "C16-using-construct-rewrites"; // the query -using-construct re-writes the grid file (binary unless -ascii is given)
+const char *K_NIDX = "C16-getneededindexes-empty";       // -getneededindexes/-getpointsindexes with zero rows: &vector[0] of an empty vector (UBSan) in outputIndexes
+const std::vector<const char *> ALL_K = {K_NIDX, K_UCWRITE, K_OUT0, K_MQLOCAL, K_SCALE, K_FLOAT, K_GNNAME, K_SCALIAS, K_SETCF, K_REFF, K_REFTYPE, K_UPDOUT};
 
 void dev_known_once() {
     static bool done = false; if (done) return; done = true;
@@ -43,7 +45,8 @@ void dev_known_once() {
 struct Skip {};   // the mirror found the invocation too expensive (point cap): it is not executed at all
 
 struct InFile { std::string name; Mat m; bool binary; int style; };
-struct Expect { bool has_mat = false; Mat mat; bool has_sparse = false; Sparse sp; bool has_text = false; std::string text; };
+struct Expect { bool has_mat = false; Mat mat; bool vector = false;   // vector: a list of numbers whose orientation (row or column) the documentation leaves open
+                bool has_sparse = false; Sparse sp; bool has_text = false; std::string text; };
 
 struct Inv {
     std::string lname, sname;             // command: documented long and short name (without '-')
@@ -209,12 +212,12 @@ struct Script {
                 bool ok = false; std::string bytes = slurp(outfile, &ok);
                 VF_REQUIRE("C16.missing-output", ok, "`tasgrid " << cmdline << "` succeeded but did not write the -outputfile");
                 if (e.has_sparse) compare_sparse(ctx, parse_sparse(bytes, !v.ascii, cmdline), e.sp, cmdline + " (outfile)");
-                else compare_mat(ctx, parse_matrix(bytes, !v.ascii, cmdline), e.mat, cmdline + " (outfile)");
+                else compare_mat(ctx, parse_matrix(bytes, !v.ascii, cmdline), e.mat, cmdline + " (outfile)", e.vector);
                 ctx.count(v.ascii ? "outfile-ascii" : "outfile-binary");
             }
             if (v.print && !v.complex_print) {
                 if (e.has_sparse) compare_sparse(ctx, parse_sparse(r.out, false, cmdline + " -print"), e.sp, cmdline + " (print)");
-                else compare_mat(ctx, parse_matrix(r.out, false, cmdline + " -print"), e.mat, cmdline + " (print)");
+                else compare_mat(ctx, parse_matrix(r.out, false, cmdline + " -print"), e.mat, cmdline + " (print)", e.vector);
                 ctx.count("print-matrix");
             }
         } else if (v.of && !e.has_text) {
@@ -244,8 +247,9 @@ struct Script {
 
     // ---------------------------------------------------------------- commands
     bool do_make(bool first) {
-        SpecOpts so; so.cap = cap; so.max_outs = 3; so.min_outs = ctx.excl(K_OUT0) ? 1 : 0; so.max_dims = 4;
+        SpecOpts so; so.cap = cap; so.max_outs = 3; so.min_outs = 0; so.max_dims = 4;
         GridSpec sp = decode_spec(s, so); if (first) vm.decode(s);
+        if (sp.outs == 0 && ctx.excl(K_OUT0)) sp.outs = 1;   // (the byte stream is decoded the same way whether or not a class is excluded)
         static const char *ln[] = {"makeglobal", "makesequence", "makelocalpoly", "makewavelet", "makefourier"}; static const char *sn[] = {"mg", "ms", "mp", "mw", "mf"};
         Inv v = start(ln[sp.family], sn[sp.family]); v.creates = true; v.writes = true;
         std::string custom; make_opts(v, sp, false, custom);
@@ -299,7 +303,7 @@ struct Script {
                 if (!g.isFourier()) e.mat = Mat(np, outs, std::vector<double>(c, c + (size_t)np * (size_t)outs));
                 else { Mat m; m.rows = np; m.cols = 2 * outs; for (int p = 0; p < np; p++) for (int k = 0; k < outs; k++) { m.v.push_back(c[(size_t)p * (size_t)outs + (size_t)k]); m.v.push_back(c[((size_t)np + (size_t)p) * (size_t)outs + (size_t)k]); } e.mat = m; }   // "each pair of consecutive numbers correspond to one complex number"
                 break; }
-            case 5: e.mat = Mat(1, outs, g.integrate()); break;
+            case 5: e.mat = Mat(1, outs, g.integrate()); e.vector = true; break;
             case 6: { const int *p = g.getPointsIndexes(); Mat m; m.rows = np; m.cols = d; for (size_t i = 0; i < (size_t)np * (size_t)d; i++) m.v.push_back((double)p[i]); e.mat = m; break; }
             case 7: { int nn = g.getNumNeeded(); const int *p = g.getNeededIndexes(); Mat m; m.rows = nn; m.cols = d; for (size_t i = 0; i < (size_t)nn * (size_t)d; i++) m.v.push_back((double)p[i]); e.mat = m; break; }
             }
@@ -330,7 +334,8 @@ struct Script {
     bool do_text(int which) {
         Inv v = start(which == 0 ? "summary" : "using-construct", which == 0 ? "s" : nullptr);
         v.positional_grid = s.chance(1, 3);   // "Note that 'tasgrid -s <filename>' is also accepted"
-        v.ascii = false;
+        if (which == 0) v.ascii = false;
+        else { if (ctx.excl(K_UCWRITE)) v.writes = true; else v.ascii = false; }   // known finding: the query re-writes the grid file in the format selected by -ascii
         return step(v, [&](TasmanianSparseGrid &g, Expect &e) {
             e.has_text = true; std::ostringstream o;
             if (which == 0) g.printStats(o); else o << "dynamic construction: " << (g.isUsingConstruction() ? "enabled" : "disabled") << "\n";
@@ -353,7 +358,7 @@ struct Script {
     bool do_getanisotropy(const TasmanianSparseGrid &cur) {
         TypeDepth t = ALL_TYPES[(size_t)s.pick(9)];
         Inv v = start("getanisotropy", "ga"); opt(v, "type", "tt", type_name(t)); int out = pick_refout(cur, v, false); outputs(v, true);
-        return step(v, [&](TasmanianSparseGrid &g, Expect &e) { auto w = g.estimateAnisotropicCoefficients(t, out); e.has_mat = true; e.mat = row_of_ints(w); });
+        return step(v, [&](TasmanianSparseGrid &g, Expect &e) { auto w = g.estimateAnisotropicCoefficients(t, out); e.has_mat = true; e.mat = row_of_ints(w); e.vector = true; });
     }
     bool do_loadvalues(const TasmanianSparseGrid &cur) {
         int d = cur.getNumDimensions(), outs = cur.getNumOutputs(); bool had = cur.getNumLoaded() > 0; bool full = cur.getNumNeeded() == 0 || !had;
@@ -404,15 +409,16 @@ struct Script {
         o.tol = fl(s.of(TOLS)); opt(v, "tolerance", "tol", decd(o.tol));
         o.crit = s.of(REFINE_TYPES);
         // help of -refinesurp: -reftype "required by local polynomial and wavelet grids"
-        o.has_crit = local || construction || ctx.excl(K_REFTYPE) || s.chance(1, 2);
+        o.has_crit = true; if (!local && !construction && s.chance(1, 2)) o.has_crit = ctx.excl(K_REFTYPE);
         if (o.has_crit) opt(v, "reftype", "rt", refine_name(o.crit));
         o.out = pick_refout(cur, v, false);
         if (s.chance(1, 3)) { o.limits = decode_limits(s, cur.getNumDimensions()); infile(v, "levellimitsfile", "lf", "limits", row_of_ints(o.limits)); }
-        if (cur.isLocalPolynomial() && cur.getNumLoaded() > 0 && s.chance(1, 3) && (construction || outs == 1 || !ctx.excl(K_SCALE))) {
+        if (cur.isLocalPolynomial() && cur.getNumLoaded() > 0 && s.chance(1, 2)) { int var = s.byte();
+            if (construction || outs == 1 || !ctx.excl(K_SCALE)) {
             // library documentation: one correction per loaded point per active output (all outputs for output = -1)
-            int act = (o.out == -1) ? outs : 1, n = cur.getNumLoaded(); int var = s.byte();
+            int act = (o.out == -1) ? outs : 1, n = cur.getNumLoaded();
             for (size_t i = 0; i < (size_t)n * (size_t)act; i++) o.scale.push_back(0.25 * (double)(1 + (int)((i * 7 + (size_t)var) % 8)));
-            infile(v, "valsfile", "vf", "scale", Mat(n, act, o.scale));
+            infile(v, "valsfile", "vf", "scale", Mat(n, act, o.scale)); }
         }
         return o;
     }
@@ -452,7 +458,7 @@ struct Script {
         Inv v = start("makeupdate", "mu"); v.writes = true; bool had = cur.getNumLoaded() > 0;
         opt(v, "depth", "dt", std::to_string(depth)); opt(v, "type", "tt", type_name(t));
         if (!aw.empty()) infile(v, "anisotropyfile", "af", "aniso", row_of_ints(aw));
-        bool want_out = !ctx.excl(K_UPDOUT) && s.chance(1, 2);   // help: "-outputfile or -print output the new points of the grid"
+        bool want_out = s.chance(1, 2) && !ctx.excl(K_UPDOUT);   // help: "-outputfile or -print output the new points of the grid"
         if (want_out) v.of = true;
         bool ok = step(v, [&](TasmanianSparseGrid &g, Expect &e) { g.updateGrid(depth, t, aw); cap_check(g);
             if (want_out) { e.has_mat = true; e.mat = Mat(g.getNumNeeded(), d, g.getNeededPoints()); } });
@@ -520,33 +526,34 @@ struct Script {
         bool data = outs > 0 && nl > 0;
         std::vector<std::pair<int, int>> w;   // (command, weight): total must stay below 256
         auto add = [&](int c, int wt, bool legal) { if (legal) w.push_back({c, wt}); };
-        add(C_LOAD, nl == 0 ? 40 : 6, outs > 0 && !constructing);
+        add(C_LOAD, nl == 0 ? 40 : (nn > 0 ? 14 : 5), outs > 0 && !constructing && nl + nn > 0);
         add(C_EVAL, 5, data); add(C_INTEGRATE, 4, data); add(C_GETCOEFF, 3, data); add(C_DIFF, 3, data && !conf);   // derivatives are not defined under a conformal map
         add(C_REFANISO, 6, data && aniso_capable && !arbitrary_coeffs && !constructing);
         add(C_REFSURP, 6, data && surplus_capable && !constructing);
-        add(C_REFINE, 5, data && !constructing && ((local) || (!cur.isFourier() && aniso_capable && !arbitrary_coeffs) || (cur.isFourier() && !arbitrary_coeffs && !ctx.excl(K_REFF))));
-        add(C_GETANISO, 3, data && aniso_capable && !arbitrary_coeffs);
-        add(C_MERGE, 5, data && nn > 0 && !constructing);
-        add(C_CANCEL, 4, nl > 0 || constructing);
-        add(C_SETCOEFF, 4, outs > 0 && !constructing);
-        add(C_UPDATE, 5, gsf && !constructing);
-        add(C_SETCONF, 3, canon11 && !constructing);
+        add(C_REFINE, 5, data && !constructing && (local || (aniso_capable && !arbitrary_coeffs)));
+        add(C_GETANISO, 5, data && aniso_capable && !arbitrary_coeffs);
+        add(C_MERGE, 12, data && nn > 0 && !constructing);
+        add(C_CANCEL, (nn > 0 || constructing) ? 7 : 2, nl > 0 || constructing);
+        add(C_SETCOEFF, 4, outs > 0 && !constructing && nl + nn > 0);
+        add(C_UPDATE, 5, gsf && !constructing && nl + nn > 0);
+        add(C_SETCONF, 3, canon11 && !constructing && nl + nn > 0);
         add(C_GCP, 6, outs > 0 && nested && !conf);   // conformal map + construction: outside every listed property (see grid.hpp)
-        add(C_LCP, 12, constructing && cands.rows > 0 && !conf);
-        add(C_GETPOINTS, 3, true); add(C_GETNEEDED, 3, true); add(C_GETQUAD, 3, true); add(C_HSUPPORT, 3, true); add(C_PINDEX, 2, true);
-        add(C_NINDEX, 2, cur.isLocalPolynomial()); add(C_IWEIGHTS, 3, true); add(C_DWEIGHTS, 3, !conf); add(C_EHD, 3, true); add(C_EHS, 4, local);
-        add(C_SUMMARY, 2, true); add(C_USINGC, 2, true); add(C_GETPOLY, 3, cur.isGlobal() || cur.isSequence());
+        add(C_LCP, 20, constructing && cands.rows > 0 && !conf);
+        bool pts = nl + nn > 0;   // a grid whose initial points were all moved to the construction candidates has no points: only construction commands apply
+        add(C_GETPOINTS, 3, pts); add(C_GETNEEDED, 3, pts); add(C_GETQUAD, 3, pts); add(C_HSUPPORT, 3, pts); add(C_PINDEX, 2, pts);
+        add(C_NINDEX, 5, pts && cur.isLocalPolynomial()); add(C_IWEIGHTS, 3, pts); add(C_DWEIGHTS, 3, pts && !conf); add(C_EHD, 3, pts); add(C_EHS, 4, pts && local);
+        add(C_SUMMARY, 2, true); add(C_USINGC, 2, true); add(C_GETPOLY, 4, pts && (cur.isGlobal() || cur.isSequence()));
         add(C_MQ, 4, true); add(C_REMAKE, 2, true);
         int tot = 0; for (auto &p : w) tot += p.second;
         int r = s.pick(tot), c = w[0].first; for (auto &p : w) { if (r < p.second) { c = p.first; break; } r -= p.second; }
         switch (c) {
         case C_GETPOINTS: return do_getter(0, cur); case C_GETNEEDED: return do_getter(1, cur); case C_GETQUAD: return do_getter(2, cur); case C_HSUPPORT: return do_getter(3, cur);
-        case C_GETCOEFF: return do_getter(4, cur); case C_INTEGRATE: return do_getter(5, cur); case C_PINDEX: return do_getter(6, cur); case C_NINDEX: return do_getter(7, cur);
+        case C_GETCOEFF: return do_getter(4, cur); case C_INTEGRATE: return do_getter(5, cur); case C_PINDEX: return do_getter(6, cur); case C_NINDEX: return do_getter((nn == 0 && ctx.excl(K_NIDX)) ? 1 : 7, cur);
         case C_EVAL: return do_evallike(0, cur); case C_DIFF: return do_evallike(1, cur); case C_IWEIGHTS: return do_evallike(2, cur); case C_DWEIGHTS: return do_evallike(3, cur);
         case C_EHD: return do_evallike(4, cur); case C_EHS: return do_evallike(5, cur);
         case C_SUMMARY: return do_text(0); case C_USINGC: return do_text(1); case C_GETPOLY: return do_getpoly(true); case C_GETANISO: return do_getanisotropy(cur);
         case C_LOAD: return do_loadvalues(cur); case C_SETCOEFF: return do_setcoefficients(cur);
-        case C_REFANISO: return do_refine(0, cur); case C_REFSURP: return do_refine(1, cur); case C_REFINE: return do_refine(2, cur);
+        case C_REFANISO: return do_refine(0, cur); case C_REFSURP: return do_refine(1, cur); case C_REFINE: return do_refine((cur.isFourier() && ctx.excl(K_REFF)) ? 0 : 2, cur);
         case C_CANCEL: return do_simple_mut(0, cur); case C_MERGE: return do_simple_mut(1, cur); case C_UPDATE: return do_update(cur); case C_SETCONF: return do_setconformal(cur);
         case C_GCP: return do_getconstructpnts(cur); case C_LCP: return do_loadconstructed(cur); case C_MQ: return do_makequadrature(); default: return do_make(false);
         }
@@ -565,7 +572,7 @@ void check_C16(Src &s, Ctx &ctx) {
     int n = 2 + s.pick(7);
     sc.idx = 0; sc.do_make(true);
     if (sc.mbytes.empty()) { ctx.nontrivial = false; return; }   // (make rejected by both sides: nothing to continue from)
-    for (int i = 1; i < n; i++) { sc.idx = i; sc.next(); }
+    for (int i = 1; i < n && !s.exhausted(); i++) { sc.idx = i; sc.next(); }   // exhausted input: the simplest continuation is the end of the script
     ctx.count("scripts");
     ctx.nontrivial = sc.n_accepted >= 3 && sc.n_mut_after_load >= 1;
     if (ctx.nontrivial) ctx.label("nontrivial");
